@@ -1709,8 +1709,11 @@ func (w *bWorld) livenessPhase() {
 			return
 		}
 
+		// (never wake two repo-owned goroutines without letting the first one settle: the identity under which
+		// a goroutine parks is the one set before it was woken)
 		if w.cursor2 < len(w.ledger.Txns) && len(w.sub2.Ch) == 0 {
 			w.deliver2()
+			k.Settle()
 		}
 
 		if round == bound {
@@ -1720,6 +1723,7 @@ func (w *bWorld) livenessPhase() {
 		if w.nextDelivery() >= 0 && len(w.sub.Ch) == 0 {
 			k.Tr.Logf("#%d env deliver (fair)", k.Steps)
 			w.deliver()
+			k.Settle()
 
 			continue
 		}
@@ -1727,6 +1731,7 @@ func (w *bWorld) livenessPhase() {
 		if w.pendingTick == "" {
 			k.Tr.Logf("#%d env tick timeout (fair)", k.Steps)
 			w.sendTick("timeout")
+			k.Settle()
 		}
 	}
 
